@@ -1,27 +1,809 @@
-//! C19 — not built yet (stub so that the binary links; `./check C19` reports INFRA until replaced).
-use arbitrary::Unstructured;
-use vcore::{Check, Labels, Plan, Tier, Verdict};
+//! C19 — composite values compare, order and combine structurally.
+//!
+//! A case is a (nested) type plus 2-3 literal values of it; one Sylt program prints the result of every operator
+//! the type checker admits for them; the printed lines must equal an independent structural model, and the
+//! observed booleans must satisfy the algebraic laws of an equivalence and of one total lexicographic order.
+#[path = "c19_model.rs"]
+mod model;
+#[path = "c19_gen.rs"]
+mod gen;
 
-pub struct Stub;
-pub const CHECK: Stub = Stub;
-pub fn plan(_t: Tier) -> Plan {
-    Plan::new(1, 16)
+use arbitrary::Unstructured;
+use gen::*;
+use model::*;
+use serde::{Deserialize, Serialize};
+use serde_json::json;
+use std::cmp::Ordering;
+use std::collections::BTreeMap;
+use std::sync::OnceLock;
+use vcore::luarun::{run_lua, LuaOutcome, Terminal};
+use vcore::{compile, Check, Found, Labels, Outcome, Project, RunCfg, Stats, Step, Tape, Tier, Verdict};
+
+pub struct C19;
+pub const CHECK: C19 = C19;
+pub fn plan(t: Tier) -> vcore::Plan {
+    vcore::Plan::new(t.pick(4_000, 80_000), 700)
 }
-impl Check for Stub {
-    type Case = u8;
+
+pub const SIG_STR_TUPLE_ADD: &str = "C19/tuple-add/string-elements";
+
+#[derive(Clone, Debug, PartialEq, Serialize, Deserialize)]
+pub struct Case {
+    pub ty: Ty,
+    pub vals: Vec<Val>,
+    /// right operand of `tuple / number`
+    pub divisor: Val,
+    /// annotate the definitions (`va : T : lit`); forced when a literal contains an empty list
+    pub annotate: bool,
+    /// values are top-level constants instead of locals of `start`
+    pub global: bool,
+    /// operands are parenthesised literals instead of variables
+    pub inline: bool,
+    /// avoidance switch for the known finding off: `+` is also applied to tuples with string elements
+    pub raw: bool,
+    /// rendered program, for human readers of replay files (re-rendered on evaluation)
+    #[serde(default)]
+    pub source: String,
+}
+
+#[derive(Clone, Copy, Debug, PartialEq)]
+pub struct Op {
+    pub k: OpK,
+    pub i: usize,
+    pub j: usize,
+}
+
+/// operator applications the property promises but the type checker may refuse: probed once per process by
+/// compiling, so that they are exercised as soon as the checker admits them
+#[derive(Clone, Copy, Debug)]
+struct Probes {
+    neg_tuple: bool,
+    le_mixed: bool,
+}
+
+fn accepted(src: &str) -> bool {
+    matches!(compile(&Project::single(src.to_string())), Outcome::Accepted(_))
+}
+
+fn probes() -> Probes {
+    static P: OnceLock<Probes> = OnceLock::new();
+    *P.get_or_init(|| Probes {
+        neg_tuple: accepted("start :: fn do\n    va :: (1, 2.5)\n    print(-va)\nend\n"),
+        le_mixed: accepted("start :: fn do\n    va :: (1, 2.5)\n    vb :: (1.5, 2)\n    print(va <= vb)\n    print(va >= vb)\nend\n"),
+    })
+}
+
+const NAMES: [&str; 3] = ["va", "vb", "vc"];
+
+fn has_empty_list(v: &Val) -> bool {
+    match v {
+        Val::List(vs) => vs.is_empty() || vs.iter().any(has_empty_list),
+        Val::Tuple(vs) => vs.iter().any(has_empty_list),
+        Val::Blob { fields, .. } => fields.iter().any(has_empty_list),
+        Val::Variant(_, Some(p)) => has_empty_list(p),
+        _ => false,
+    }
+}
+
+fn divisor_ty(d: &Val) -> Ty {
+    match d {
+        Val::Float(_) => Ty::Float,
+        _ => Ty::Int,
+    }
+}
+
+impl Case {
+    fn well_formed(&self) -> bool {
+        !self.vals.is_empty()
+            && self.vals.len() <= 3
+            && self.ty.depth() <= 4
+            && self.vals.iter().all(|v| conforms(v, &self.ty, true))
+            && match &self.divisor {
+                Val::Int(i) => *i != 0 && i.unsigned_abs() <= 1 << 31,
+                Val::Float(s) => parse_float(s).map(|f| f != 0.0).unwrap_or(false),
+                _ => false,
+            }
+    }
+
+    /// operator applications of the program, in print order
+    fn ops(&self, pr: Probes) -> Vec<Op> {
+        let n = self.vals.len();
+        let tys: Vec<Ty> = self.vals.iter().map(|v| vtype(v, &self.ty)).collect();
+        let ms: Vec<M> = self.vals.iter().map(to_m).collect();
+        let mut ops = Vec::new();
+        let mut deferred = Vec::new();
+        for i in 0..n {
+            for j in 0..n {
+                let same = tys[i] == tys[j];
+                let cmp = adm_cmp(&tys[i], &tys[j]);
+                if same {
+                    ops.push(Op { k: OpK::Eq, i, j });
+                    ops.push(Op { k: OpK::Ne, i, j });
+                }
+                if cmp {
+                    ops.push(Op { k: OpK::Lt, i, j });
+                    ops.push(Op { k: OpK::Gt, i, j });
+                    if same || pr.le_mixed {
+                        ops.push(Op { k: OpK::Le, i, j });
+                        ops.push(Op { k: OpK::Ge, i, j });
+                    }
+                }
+            }
+        }
+        for i in 0..n {
+            for j in 0..n {
+                let small = ints_small(&ms[i]) && ints_small(&ms[j]);
+                if small && adm_add(&tys[i], &tys[j]) {
+                    let trigger = matches!(tys[i], Ty::Tuple(_)) && tys[i].tuple_str_leaf();
+                    if !trigger {
+                        ops.push(Op { k: OpK::Add, i, j });
+                    } else if self.raw {
+                        deferred.push(Op { k: OpK::Add, i, j });
+                    }
+                }
+                if small && adm_submul(&tys[i], &tys[j]) {
+                    ops.push(Op { k: OpK::Sub, i, j });
+                    ops.push(Op { k: OpK::Mul, i, j });
+                }
+                if small && adm_div(&tys[i], &tys[j]) && !has_zero(&ms[j]) {
+                    ops.push(Op { k: OpK::Div, i, j });
+                }
+            }
+        }
+        for i in 0..n {
+            if matches!(tys[i], Ty::Tuple(_)) && ints_small(&ms[i]) && adm_div(&tys[i], &divisor_ty(&self.divisor)) {
+                ops.push(Op { k: OpK::DivNum, i, j: 0 });
+            }
+            if tys[i].is_num() || (pr.neg_tuple && matches!(tys[i], Ty::Tuple(_)) && tys[i].all_num()) {
+                ops.push(Op { k: OpK::Neg, i, j: 0 });
+            }
+        }
+        // the known-finding trigger goes last: a runtime error there hides nothing else
+        ops.extend(deferred);
+        ops
+    }
+
+    fn operand(&self, i: usize) -> String {
+        if self.inline {
+            format!("({})", val_text(&self.vals[i], &vtype(&self.vals[i], &self.ty), false))
+        } else {
+            NAMES[i].to_string()
+        }
+    }
+
+    fn op_text(&self, op: &Op) -> String {
+        match op.k {
+            OpK::Neg => format!("-{}", self.operand(op.i)),
+            OpK::DivNum => {
+                let d = val_text(&self.divisor, &divisor_ty(&self.divisor), true);
+                let d = if d.starts_with('-') { format!("({})", d) } else { d };
+                format!("{} / {}", self.operand(op.i), d)
+            }
+            k => format!("{} {} {}", self.operand(op.i), k.sym(), self.operand(op.j)),
+        }
+    }
+
+    /// the program and, per operator application, its 1-based source line
+    fn render(&self, ops: &[Op]) -> (String, Vec<usize>) {
+        let mut lines: Vec<String> = Vec::new();
+        let mut d = Vec::new();
+        decls(&self.ty, &mut d);
+        for s in d {
+            for l in s.lines() {
+                lines.push(l.to_string());
+            }
+        }
+        let defs: Vec<String> = self
+            .vals
+            .iter()
+            .enumerate()
+            .map(|(i, v)| {
+                let t = vtype(v, &self.ty);
+                if self.annotate || has_empty_list(v) {
+                    format!("{} : {} : {}", NAMES[i], type_text(&t), val_text(v, &t, false))
+                } else {
+                    format!("{} :: {}", NAMES[i], val_text(v, &t, false))
+                }
+            })
+            .collect();
+        if self.global {
+            lines.extend(defs.iter().cloned());
+        }
+        lines.push("start :: fn do".into());
+        if !self.global {
+            lines.extend(defs.iter().map(|d| format!("    {}", d)));
+        }
+        let mut at = Vec::new();
+        for op in ops {
+            lines.push(format!("    print({})", self.op_text(op)));
+            at.push(lines.len());
+        }
+        lines.push("end".into());
+        (lines.join("\n") + "\n", at)
+    }
+
+    fn with_source(mut self) -> Case {
+        let ops = self.ops(probes());
+        self.source = self.render(&ops).0;
+        self
+    }
+}
+
+/// expected printed line of one operator application
+fn expect(op: &Op, ms: &[M], divisor: &M) -> Option<String> {
+    let a = &ms[op.i];
+    let b = ms.get(op.j)?;
+    let r = match op.k {
+        OpK::Eq => M::B(m_eq(a, b)),
+        OpK::Ne => M::B(!m_eq(a, b)),
+        OpK::Lt => M::B(m_cmp(a, b)? == Ordering::Less),
+        OpK::Le => M::B(m_cmp(a, b)? != Ordering::Greater),
+        OpK::Gt => M::B(m_cmp(a, b)? == Ordering::Greater),
+        OpK::Ge => M::B(m_cmp(a, b)? != Ordering::Less),
+        OpK::Add | OpK::Sub | OpK::Mul | OpK::Div => m_arith(op.k, a, b)?,
+        OpK::DivNum => m_arith(OpK::Div, a, divisor)?,
+        OpK::Neg => m_neg(a)?,
+    };
+    show(&r)
+}
+
+/// the algebraic laws on the observed booleans; returns (law, explanation)
+fn laws(n: usize, obs: &BTreeMap<(OpK, usize, usize), bool>) -> Option<(&'static str, String)> {
+    let g = |k: OpK, i: usize, j: usize| obs.get(&(k, i, j)).copied();
+    let nm = |i: usize| NAMES[i];
+    for i in 0..n {
+        if g(OpK::Eq, i, i) == Some(false) {
+            return Some(("eq-reflexive", format!("{0} == {0} is false", nm(i))));
+        }
+        if g(OpK::Lt, i, i) == Some(true) {
+            return Some(("lt-irreflexive", format!("{0} < {0} is true", nm(i))));
+        }
+        for j in 0..n {
+            if let (Some(x), Some(y)) = (g(OpK::Eq, i, j), g(OpK::Eq, j, i)) {
+                if x != y {
+                    return Some(("eq-symmetric", format!("{0} == {1} is {2} but {1} == {0} is {3}", nm(i), nm(j), x, y)));
+                }
+            }
+            if let (Some(x), Some(y)) = (g(OpK::Eq, i, j), g(OpK::Ne, i, j)) {
+                if x == y {
+                    return Some(("ne-complement", format!("{0} == {1} and {0} != {1} are both {2}", nm(i), nm(j), x)));
+                }
+            }
+            if let (Some(le), Some(lt), Some(eq)) = (g(OpK::Le, i, j), g(OpK::Lt, i, j), g(OpK::Eq, i, j)) {
+                if le != (lt || eq) {
+                    return Some(("le-is-lt-or-eq", format!("{0} <= {1} is {2} but < is {3} and == is {4}", nm(i), nm(j), le, lt, eq)));
+                }
+            }
+            if let (Some(gt), Some(lt)) = (g(OpK::Gt, i, j), g(OpK::Lt, j, i)) {
+                if gt != lt {
+                    return Some(("gt-is-flipped-lt", format!("{0} > {1} is {2} but {1} < {0} is {3}", nm(i), nm(j), gt, lt)));
+                }
+            }
+            if let (Some(ge), Some(le)) = (g(OpK::Ge, i, j), g(OpK::Le, j, i)) {
+                if ge != le {
+                    return Some(("ge-is-flipped-le", format!("{0} >= {1} is {2} but {1} <= {0} is {3}", nm(i), nm(j), ge, le)));
+                }
+            }
+            if let (Some(lt), Some(gt)) = (g(OpK::Lt, i, j), g(OpK::Gt, i, j)) {
+                match g(OpK::Eq, i, j) {
+                    Some(eq) => {
+                        let c = lt as u8 + gt as u8 + eq as u8;
+                        if c != 1 {
+                            return Some(("trichotomy", format!("of {0} < {1} ({2}), {0} == {1} ({3}), {0} > {1} ({4}) exactly one must hold", nm(i), nm(j), lt, eq, gt)));
+                        }
+                    }
+                    None => {
+                        if lt && gt {
+                            return Some(("trichotomy", format!("{0} < {1} and {0} > {1} both hold", nm(i), nm(j))));
+                        }
+                    }
+                }
+            }
+            for k in 0..n {
+                if g(OpK::Lt, i, j) == Some(true) && g(OpK::Lt, j, k) == Some(true) && g(OpK::Lt, i, k) == Some(false) {
+                    return Some(("lt-transitive", format!("{0} < {1} and {1} < {2} but not {0} < {2}", nm(i), nm(j), nm(k))));
+                }
+                if g(OpK::Eq, i, j) == Some(true) && g(OpK::Eq, j, k) == Some(true) && g(OpK::Eq, i, k) == Some(false) {
+                    return Some(("eq-transitive", format!("{0} == {1} and {1} == {2} but not {0} == {2}", nm(i), nm(j), nm(k))));
+                }
+            }
+        }
+    }
+    None
+}
+
+/// index of the first differing element of two root tuples / lists
+fn first_diff(a: &M, b: &M) -> Option<usize> {
+    match (a, b) {
+        (M::T(x), M::T(y)) | (M::L(x), M::L(y)) => {
+            for k in 0..x.len().min(y.len()) {
+                if !m_eq(&x[k], &y[k]) {
+                    return Some(k);
+                }
+            }
+            if x.len() != y.len() {
+                Some(x.len().min(y.len()))
+            } else {
+                None
+            }
+        }
+        _ => None,
+    }
+}
+
+fn scan(v: &Val, f: &mut dyn FnMut(&Val)) {
+    f(v);
+    match v {
+        Val::Tuple(vs) | Val::List(vs) => vs.iter().for_each(|x| scan(x, f)),
+        Val::Blob { fields, .. } => fields.iter().for_each(|x| scan(x, f)),
+        Val::Variant(_, Some(p)) => scan(p, f),
+        _ => {}
+    }
+}
+
+impl Check for C19 {
+    type Case = Case;
     fn id(&self) -> &'static str {
         "C19"
     }
-    fn generate(&self, _u: &mut Unstructured, _tier: Tier) -> Option<u8> {
-        None
+
+    fn generate(&self, u: &mut Unstructured, _tier: Tier) -> Option<Case> {
+        let mut t = Tape::new(u);
+        // the avoidance switch of the known finding is off for 20 % of the budget
+        let mut raw = t.chance(1, 5);
+        match std::env::var("C19_RAW").ok().as_deref() {
+            Some("0") => raw = false,
+            Some("1") => raw = true,
+            _ => {}
+        }
+        let profile = [Profile::Any, Profile::Ord, Profile::Arith][t.weighted(&[36, 32, 32])];
+        let depth = 1 + t.weighted(&[30, 45, 25]);
+        let mut g = G { t: &mut t, next_id: 0 };
+        let ty = g.ty(depth, profile, true);
+        let big_ok = profile == Profile::Ord && g.t.chance(1, 3);
+        let n = 2 + g.t.weighted(&[40, 60]);
+        let mut vals = vec![g.val(&ty, big_ok)];
+        while vals.len() < n {
+            let v = g.derive(&vals, &ty, big_ok);
+            vals.push(v);
+        }
+        let divisor = match g.t.weighted(&[3, 2, 2, 1, 1, 1]) {
+            0 => Val::Int(2),
+            1 => Val::Float("0.5".into()),
+            2 => Val::Int(-4),
+            3 => Val::Int(3),
+            4 => Val::Float("2.5".into()),
+            _ => Val::Float("-0.1".into()),
+        };
+        let annotate = g.t.chance(1, 3);
+        let global = g.t.chance(1, 5);
+        let inline = g.t.chance(1, 6);
+        Some(Case { ty, vals, divisor, annotate, global, inline, raw, source: String::new() }.with_source())
     }
-    fn evaluate(&self, _case: &u8, _labels: &mut Labels) -> Verdict {
-        Verdict::Discard("stub".into())
+
+    fn evaluate(&self, case: &Case, labels: &mut Labels) -> Verdict {
+        if !case.well_formed() {
+            return Verdict::Discard("malformed-case".into());
+        }
+        let pr = probes();
+        let kind = case.ty.kind();
+        let n = case.vals.len();
+        let tys: Vec<Ty> = case.vals.iter().map(|v| vtype(v, &case.ty)).collect();
+        let ms: Vec<M> = case.vals.iter().map(to_m).collect();
+        let ops = case.ops(pr);
+        let (src, at) = case.render(&ops);
+
+        // ---- classification
+        labels.add(format!("type:{}", kind));
+        labels.add(format!("depth:{}", case.ty.depth()));
+        let mixed = (0..n).any(|i| (0..n).any(|j| tys[i] != tys[j]));
+        if mixed {
+            labels.add("mixed-int-float");
+            if !pr.le_mixed {
+                labels.add("operator-not-admitted:<=:int-vs-float");
+            }
+        }
+        if !pr.neg_tuple && tys.iter().any(|t| matches!(t, Ty::Tuple(_)) && t.all_num()) {
+            labels.add("operator-not-admitted:neg:tuple");
+        }
+        let (mut negzero, mut nonascii, mut emptystr, mut empty_comp, mut single, mut bigint) = (false, false, false, false, false, false);
+        for v in &case.vals {
+            scan(v, &mut |x| match x {
+                Val::Float(s) if s == "-0.0" => negzero = true,
+                Val::Str(s) => {
+                    nonascii |= !s.is_ascii();
+                    emptystr |= s.is_empty();
+                }
+                Val::Tuple(vs) | Val::List(vs) => {
+                    empty_comp |= vs.is_empty();
+                    single |= vs.len() == 1;
+                }
+                Val::Int(i) => bigint |= i.unsigned_abs() > 1 << 31,
+                _ => {}
+            });
+        }
+        for (f, l) in [(negzero, "neg-zero"), (nonascii, "non-ascii-string"), (emptystr, "empty-string"), (empty_comp, "empty-tuple-or-list"), (single, "singleton-tuple-or-list"), (bigint, "big-int")] {
+            if f {
+                labels.add(l);
+            }
+        }
+        let mut late = false;
+        let mut equal_pair = false;
+        let mut prefix_str = false;
+        for i in 0..n {
+            for j in 0..n {
+                if i < j {
+                    if m_cmp(&ms[i], &ms[j]) == Some(Ordering::Equal) || (tys[i] == tys[j] && m_eq(&ms[i], &ms[j])) {
+                        equal_pair = true;
+                    }
+                    if first_diff(&ms[i], &ms[j]).map(|k| k >= 1).unwrap_or(false) {
+                        late = true;
+                    }
+                    if let (M::S(x), M::S(y)) = (&ms[i], &ms[j]) {
+                        prefix_str |= x != y && (x.starts_with(y.as_str()) || y.starts_with(x.as_str()));
+                    }
+                }
+            }
+        }
+        if equal_pair {
+            labels.add("equal-pair");
+        }
+        if late {
+            labels.add("differ-late");
+        }
+        if prefix_str {
+            labels.add("string-prefix-pair");
+        }
+        let mut seen = std::collections::BTreeSet::new();
+        for op in &ops {
+            if seen.insert(op.k) {
+                labels.add(format!("op:{}", op.k.name()));
+            }
+        }
+        if case.raw {
+            labels.add("raw");
+        }
+        if ops.is_empty() {
+            return Verdict::Discard("no-operator-applies".into());
+        }
+
+        // ---- expected lines
+        let dm = to_m(&case.divisor);
+        let mut expected = Vec::with_capacity(ops.len());
+        for op in &ops {
+            match expect(op, &ms, &dm) {
+                Some(s) => expected.push(s),
+                None => return Verdict::Discard("model-undefined".into()),
+            }
+        }
+
+        // ---- compile
+        let out = compile(&Project::single(src.clone()));
+        let lua = match &out {
+            Outcome::Accepted(b) => b,
+            Outcome::Rejected { errors, bytes_written } => {
+                if *bytes_written > 0 {
+                    return Verdict::Violation {
+                        signature: "C19/rejected-but-wrote-lua".into(),
+                        detail: format!("{} bytes of Lua written although compilation failed: {}", bytes_written, out.short()),
+                    };
+                }
+                let e = &errors[0];
+                if let Some(p) = at.iter().position(|l| *l == e.line) {
+                    labels.add(format!("operator-not-admitted:{}:{}", ops[p].k.sym(), kind));
+                    if let Ok(d) = std::env::var("C19_SAVE_REJECTED") {
+                        let _ = std::fs::create_dir_all(&d);
+                        let _ = std::fs::write(format!("{}/rej_{:x}.sy", d, vcore::hash64(&src)), format!("// {}\n{}", out.short(), src));
+                    }
+                    return Verdict::Discard("rejected-operator".into());
+                }
+                labels.add(format!("rejected:{}:{}", e.kind, e.sub));
+                if let Ok(d) = std::env::var("C19_SAVE_REJECTED") {
+                    let _ = std::fs::create_dir_all(&d);
+                    let _ = std::fs::write(format!("{}/rej_{:x}.sy", d, vcore::hash64(&src)), format!("// {}\n{}", out.short(), src));
+                }
+                return Verdict::Discard("rejected".into());
+            }
+            Outcome::Panicked { .. } => {
+                labels.add("compiler-panicked");
+                return Verdict::Discard("compiler-panicked".into());
+            }
+        };
+        labels.add("accepted");
+
+        // ---- run
+        let got = match run_lua(lua, 5_000_000) {
+            LuaOutcome::LoadError { class, msg, line } => {
+                return Verdict::Violation {
+                    signature: format!("C19/lua-load/{}", class),
+                    detail: format!("emitted chunk does not load: {} (chunk line {})\n--- source ---\n{}", msg, line, src),
+                };
+            }
+            LuaOutcome::Ran(t) => t,
+        };
+        if let Terminal::OutOfBudget(w) = &got.terminal {
+            return Verdict::Discard(format!("lua-budget-{}", w));
+        }
+        let sig_for = |op: &Op, class: &str| -> String {
+            let trigger = op.k == OpK::Add && matches!(tys[op.i], Ty::Tuple(_)) && tys[op.i].tuple_str_leaf();
+            if trigger {
+                SIG_STR_TUPLE_ADD.to_string()
+            } else {
+                format!("C19/{}/{}/{}", class, op.k.name(), kind)
+            }
+        };
+        let m = expected.len().min(got.lines.len());
+        for p in 0..m {
+            if expected[p] != got.lines[p] {
+                return Verdict::Violation {
+                    signature: sig_for(&ops[p], "value"),
+                    detail: format!(
+                        "`{}` (source line {}) printed {:?}, the structural definition gives {:?}\n--- source ---\n{}",
+                        case.op_text(&ops[p]),
+                        at[p],
+                        got.lines[p],
+                        expected[p],
+                        src
+                    ),
+                };
+            }
+        }
+        if got.lines.len() < expected.len() {
+            let p = got.lines.len();
+            let (class, what) = match &got.terminal {
+                Terminal::LuaError { class, msg } => (format!("lua-error-{}", class), msg.clone()),
+                other => ("output-missing".to_string(), format!("{:?}", other)),
+            };
+            return Verdict::Violation {
+                signature: sig_for(&ops[p], &class),
+                detail: format!(
+                    "`{}` (source line {}) should print {:?}; the program stopped there: {}\n--- source ---\n{}",
+                    case.op_text(&ops[p]),
+                    at[p],
+                    expected[p],
+                    what,
+                    src
+                ),
+            };
+        }
+        if got.lines.len() > expected.len() || got.terminal != Terminal::Ok {
+            return Verdict::Violation {
+                signature: format!("C19/trace/{}", kind),
+                detail: format!("{} lines expected, {} printed, terminal {:?}\n--- source ---\n{}", expected.len(), got.lines.len(), got.terminal, src),
+            };
+        }
+
+        // ---- laws on the observed booleans (independent of the model)
+        let mut obs = BTreeMap::new();
+        for (p, op) in ops.iter().enumerate() {
+            if op.k.is_bool() {
+                match got.lines[p].as_str() {
+                    "true" => {
+                        obs.insert((op.k, op.i, op.j), true);
+                    }
+                    "false" => {
+                        obs.insert((op.k, op.i, op.j), false);
+                    }
+                    _ => {}
+                }
+            }
+        }
+        if let Some((law, what)) = laws(n, &obs) {
+            return Verdict::Violation { signature: format!("C19/law/{}/{}", law, kind), detail: format!("{}\n--- source ---\n{}", what, src) };
+        }
+        let nontrivial = case.ty.depth() >= 2 || late;
+        Verdict::Pass { nontrivial }
     }
+
+    fn simplify_at(&self, case: &Case, idx: usize) -> Step<Case> {
+        let mut cands: Vec<Option<Case>> = Vec::new();
+        let base = case.clone();
+        // fewer values
+        for k in (0..case.vals.len()).rev() {
+            if case.vals.len() > 1 {
+                let mut c = base.clone();
+                c.vals.remove(k);
+                cands.push(Some(c));
+            }
+        }
+        // plainer rendering
+        for f in 0..4 {
+            let mut c = base.clone();
+            match f {
+                0 => c.annotate = false,
+                1 => c.global = false,
+                2 => c.inline = false,
+                _ => c.divisor = Val::Int(2),
+            }
+            cands.push(Some(c));
+        }
+        // smaller type
+        let mut nodes = Vec::new();
+        type_nodes(&case.ty, &mut Vec::new(), &mut nodes);
+        for path in nodes.iter().take(40) {
+            for e in 0..8 {
+                for edit in [Edit::Hoist(e), Edit::Drop(e)] {
+                    let c = edit_ty(&case.ty, path, edit).and_then(|ty| {
+                        let vals = case.vals.iter().map(|v| edit_val(v, path, edit)).collect::<Option<Vec<Val>>>()?;
+                        Some(Case { ty, vals, ..base.clone() })
+                    });
+                    cands.push(c);
+                }
+            }
+        }
+        // equal values, simpler values
+        for i in 0..case.vals.len() {
+            for j in 0..case.vals.len() {
+                if i != j {
+                    let mut c = base.clone();
+                    c.vals[i] = case.vals[j].clone();
+                    cands.push(Some(c));
+                }
+            }
+        }
+        for i in 0..case.vals.len() {
+            for s in simpler_values(&case.vals[i]).into_iter().take(60) {
+                let mut c = base.clone();
+                c.vals[i] = s;
+                cands.push(Some(c));
+            }
+        }
+        match cands.into_iter().nth(idx) {
+            None => Step::End,
+            Some(None) => Step::Skip,
+            Some(Some(c)) => {
+                let c = c.with_source();
+                if c == *case || !c.well_formed() {
+                    Step::Skip
+                } else {
+                    Step::Candidate(c)
+                }
+            }
+        }
+    }
+
+    fn sample(&self, case: &Case) -> serde_json::Value {
+        json!({ "type": type_text(&case.ty), "source": vcore::truncate_value(json!(case.source), 2048) })
+    }
+
     fn rule(&self) -> String {
-        "stub".into()
+        "cases: a random (nested, depth <= 3) type - tuples of int/float/str/bool/tuples, lists, declared blobs without function \
+         fields, declared payload and payload-less enums - and 2-3 literal values of it (equal copies, late single differences, \
+         swapped components, -0.0/0.0, int-vs-float leaves where `<`/`>`/`/` admit them, empty/singleton tuples and lists, \
+         prefix and non-ASCII strings); one program prints every operator application the type checker admits (== != < <= > >= on \
+         every ordered pair incl. a value with itself, + - * /, tuple / number, unary -); oracle: each printed line equals an \
+         independent structural model (structural equality, one lexicographic order with exact int/float comparison and bytewise \
+         strings, element-wise wrapping-int / IEEE arithmetic, Lua 5.3 number formatting) AND the observed booleans satisfy \
+         reflexivity, symmetry, complement, <= iff < or ==, > / >= as flipped < / <=, trichotomy, transitivity of < and ==; \
+         non-trivial = accepted, type of nesting depth >= 2 or a pair of values that first differs at position >= 2; distinct by hash of the case"
+            .into()
     }
-    fn health(&self, _s: &vcore::Stats) -> Result<(), String> {
-        Err("check not built yet".into())
+
+    fn assumptions(&self) -> Vec<String> {
+        vec![
+            "mini-Lua (harness/minilua) agrees with Lua 5.3 on metamethod dispatch (__eq only for two distinct tables, > and >= by swapping), exact int/float comparison, bytewise string order (C locale) and %.14g formatting".into(),
+            "domain: no NaN, no zero divisors (IEEE inf is left out of the contract), |int| <= 2^31 and |float| <= 1e9 wherever arithmetic is applied; int/float mixtures only where the type checker admits them (`<`, `>`, `/`)".into(),
+            "operators the property mentions but the type checker rejects (unary - on tuples, <= / >= between int and float) are recorded as operator-not-admitted and are exercised automatically once the checker admits them; C19 speaks about what accepted programs compute".into(),
+            "blob values are never printed whole (pairs order); only booleans and tuples of numbers/strings are printed".into(),
+        ]
     }
+
+    fn extra_phase(&self, _cfg: &RunCfg, stats: &mut Stats) -> Vec<Found> {
+        let (matrix, mismatches, not_admitted) = vcore::on_big_stack(256, admitted_matrix);
+        stats.extra.insert("admitted_matrix".into(), matrix);
+        stats.extra.insert("admitted_matrix_vs_predicate_mismatches".into(), json!(mismatches));
+        stats.extra.insert("promised_but_not_admitted".into(), json!(not_admitted));
+        Vec::new()
+    }
+
+    fn health(&self, s: &Stats) -> Result<(), String> {
+        if let Some(m) = s.extra.get("admitted_matrix_vs_predicate_mismatches").and_then(|m| m.as_array()) {
+            if !m.is_empty() {
+                return Err(format!("the check's model of which operators the type checker admits no longer matches the checker: {}", serde_json::Value::Array(m.clone())));
+            }
+        }
+        if s.evaluations < 500 {
+            return Ok(());
+        }
+        let ev = s.evaluations as f64;
+        let rendered = ev - s.discard("no-operator-applies") as f64 - s.discard("malformed-case") as f64;
+        let acc = s.label("accepted") as f64 / rendered.max(1.0);
+        if acc < 0.9 {
+            return Err(format!("only {:.1}% of rendered programs are accepted by the compiler", acc * 100.0));
+        }
+        if (s.nontrivial as f64) < 0.4 * ev {
+            return Err(format!("only {} of {} cases are non-trivial", s.nontrivial, s.evaluations));
+        }
+        for (l, min) in [
+            ("type:tuple", 0.30),
+            ("type:list", 0.03),
+            ("type:blob", 0.03),
+            ("type:enum", 0.03),
+            ("mixed-int-float", 0.02),
+            ("neg-zero", 0.03),
+            ("non-ascii-string", 0.03),
+            ("empty-tuple-or-list", 0.03),
+            ("singleton-tuple-or-list", 0.03),
+            ("equal-pair", 0.10),
+            ("differ-late", 0.10),
+            ("op:eq", 0.5),
+            ("op:lt", 0.3),
+            ("op:le", 0.3),
+            ("op:add", 0.15),
+            ("op:sub", 0.15),
+            ("op:div", 0.10),
+            ("op:div-by-number", 0.10),
+        ] {
+            if s.label_frac(l) < min {
+                return Err(format!("class {:?} appears in only {:.1}% of the cases (minimum {:.0}%)", l, s.label_frac(l) * 100.0, min * 100.0));
+            }
+        }
+        Ok(())
+    }
+}
+
+/// operator x type-class matrix obtained by compiling one tiny program per cell, compared with the predicates
+/// the generator uses. Returns (matrix, mismatches, promised-but-not-admitted).
+fn admitted_matrix() -> (serde_json::Value, Vec<String>, Vec<String>) {
+    let b = |fields: Vec<Val>| Val::Blob { fields, rev: false };
+    let t = |v: Vec<Val>| Val::Tuple(v);
+    let f = |s: &str| Val::Float(s.to_string());
+    let s = |x: &str| Val::Str(x.to_string());
+    // (class, base type, left value, right value)
+    let classes: Vec<(&str, Ty, Val, Val)> = vec![
+        ("int", Ty::Int, Val::Int(1), Val::Int(2)),
+        ("float", Ty::Float, f("1.5"), f("2.5")),
+        ("str", Ty::Str, s("a"), s("b")),
+        ("bool", Ty::Bool, Val::Bool(true), Val::Bool(false)),
+        ("int-vs-float", Ty::Int, Val::Int(1), f("1.5")),
+        ("tuple-of-numbers", Ty::Tuple(vec![Ty::Int, Ty::Float]), t(vec![Val::Int(1), f("2.5")]), t(vec![Val::Int(3), f("0.5")])),
+        ("tuple-int-vs-float", Ty::Tuple(vec![Ty::Int, Ty::Float]), t(vec![Val::Int(1), f("2.5")]), t(vec![f("1.5"), Val::Int(2)])),
+        ("tuple-of-strings", Ty::Tuple(vec![Ty::Str, Ty::Str]), t(vec![s("a"), s("b")]), t(vec![s("a"), s("c")])),
+        ("tuple-str-and-number", Ty::Tuple(vec![Ty::Str, Ty::Int]), t(vec![s("a"), Val::Int(1)]), t(vec![s("a"), Val::Int(2)])),
+        ("tuple-with-bool", Ty::Tuple(vec![Ty::Int, Ty::Bool]), t(vec![Val::Int(1), Val::Bool(true)]), t(vec![Val::Int(1), Val::Bool(false)])),
+        (
+            "nested-tuple-of-numbers",
+            Ty::Tuple(vec![Ty::Tuple(vec![Ty::Int, Ty::Int]), Ty::Float]),
+            t(vec![t(vec![Val::Int(1), Val::Int(2)]), f("2.5")]),
+            t(vec![t(vec![Val::Int(1), Val::Int(3)]), f("0.5")]),
+        ),
+        ("empty-tuple", Ty::Tuple(vec![]), t(vec![]), t(vec![])),
+        ("singleton-tuple", Ty::Tuple(vec![Ty::Int]), t(vec![Val::Int(1)]), t(vec![Val::Int(2)])),
+        ("tuple-with-list", Ty::Tuple(vec![Ty::Int, Ty::List(Box::new(Ty::Int))]), t(vec![Val::Int(1), Val::List(vec![Val::Int(1)])]), t(vec![Val::Int(1), Val::List(vec![])])),
+        ("list", Ty::List(Box::new(Ty::Int)), Val::List(vec![Val::Int(1), Val::Int(2)]), Val::List(vec![Val::Int(1)])),
+        ("blob", Ty::Blob(0, vec![Ty::Int, Ty::Str]), b(vec![Val::Int(1), s("a")]), b(vec![Val::Int(1), s("b")])),
+        ("enum", Ty::Enum(0, vec![None, Some(Ty::Int)]), Val::Variant(0, None), Val::Variant(1, Some(Box::new(Val::Int(3))))),
+    ];
+    let all = [OpK::Eq, OpK::Ne, OpK::Lt, OpK::Le, OpK::Gt, OpK::Ge, OpK::Add, OpK::Sub, OpK::Mul, OpK::Div, OpK::DivNum, OpK::Neg];
+    let pr = probes();
+    let mut matrix = serde_json::Map::new();
+    let mut mismatches = Vec::new();
+    let mut not_admitted = Vec::new();
+    for (name, ty, x, y) in classes {
+        let case = Case { ty: ty.clone(), vals: vec![x.clone(), y.clone()], divisor: Val::Int(2), annotate: true, global: false, inline: false, raw: true, source: String::new() };
+        let predicted = case.ops(pr);
+        let mut row = serde_json::Map::new();
+        for k in all {
+            let op = Op { k, i: 0, j: if matches!(k, OpK::DivNum | OpK::Neg) { 0 } else { 1 } };
+            let (src, _) = case.render(&[op]);
+            let adm = accepted(&src);
+            row.insert(k.name().to_string(), json!(adm));
+            let pred = predicted.iter().any(|o| o.k == k && o.i == op.i && o.j == op.j);
+            if pred != adm {
+                mismatches.push(format!("{} on {}: checker {}, predicate {}", k.name(), name, if adm { "admits" } else { "rejects" }, if pred { "admits" } else { "rejects" }));
+            }
+            // what the property text promises for this class
+            let (tx, ty2) = (vtype(&x, &ty), vtype(&y, &ty));
+            let promised = match k {
+                OpK::Lt | OpK::Le | OpK::Gt | OpK::Ge => adm_cmp(&tx, &ty2),
+                OpK::Neg => tx.all_num(),
+                _ => false,
+            };
+            if promised && !adm {
+                not_admitted.push(format!("{}:{}", k.sym(), name));
+            }
+        }
+        matrix.insert(name.to_string(), serde_json::Value::Object(row));
+    }
+    (serde_json::Value::Object(matrix), mismatches, not_admitted)
 }
